@@ -245,18 +245,40 @@ def script_from_trace(rec):
     return sc
 
 
-def report(ctx, recs, rejected):
+def report(ctx, recs, rejected, cfg=None, confirm=True, cfg_wide=None):
+    """One violation per signature. A signature seen in fewer than 3 independent runs is re-confirmed first: the
+    order observed in the failing trace is re-imposed 12 times (script_from_trace) and must be rejected by TLC
+    again at least once; otherwise it is reported as an unreproduced (flaky) rejection = infrastructure problem."""
     by_sig = {}
     for idx, sig, info in rejected:
         by_sig.setdefault(sig, []).append((idx, info))
+    flaky = []
     for sig, lst in by_sig.items():
         idx, info = lst[0]
         r = recs[idx]
+        sc = script_from_trace(r)
+        if confirm and cfg and len(lst) < 3 and sig != "panic" and r.get("driver", "drv_pipeconn") == "drv_pipeconn":
+            again = []
+            for i in range(12):
+                s2 = copy.deepcopy(sc)
+                s2["name"] = "confirm%d" % i
+                s2.pop("random", None)
+                again.append(s2)
+            recs2 = run_scripts(ctx, again)
+            use = cfg_wide if (cfg_wide and r["script"]["maxCq"] > 4) else cfg
+            rej2 = validate(ctx, recs2, use, "re-confirmation of %s" % sig, max_reject=1)
+            ctx.cov["traces_validated_against_impl"] -= len(recs2) - len(rej2)
+            if not rej2:
+                flaky.append((sig, r["name"], info.get("event")))
+                continue
         ctx.violation(sig, "real trace of TraditionalDnsConn is not a behaviour of PipeConn.tla satisfying the property "
                            "(%d traces; first: script %s rejected at event %s: %s)" % (
                                len(lst), r["name"], info.get("line_in_trace"), json.dumps(info.get("event"))),
-                      {"script": script_from_trace(r), "orig_script": r["script"], "trace": r["trace"],
+                      {"script": sc, "orig_script": r["script"], "trace": r["trace"],
                        "driver": r.get("driver", "drv_pipeconn")})
+    if flaky and not ctx.violations:
+        raise vlib.Infra("trace rejection(s) that could not be reproduced in 12 re-runs of the observed order "
+                         "(scheduler stall?): %s" % flaky)
     return by_sig
 
 
@@ -313,5 +335,5 @@ def replay(ctx, cfg):
     recs = run_scripts(ctx, scripts, driver=d.get("driver", "drv_pipeconn"))
     ctx.cov["evaluations"] = len(recs)
     rej = validate(ctx, recs, cfg, "replay")
-    report(ctx, recs, rej)
+    report(ctx, recs, rej, confirm=False)
     ctx.sample(recs[0]["trace"])
